@@ -61,9 +61,13 @@ def main():
     fwd = bool(re.search(r"if let Some\(Event::Error \{ message, span \}\) = self\.events\.next\(\) \{ self\.errors\.push\(Error::SyntaxError \{ message, span \}\); \}", rec))
     # does anything push an error when MaxDepthReached is produced?
     beg = norm(fn_body(c2a, "begin"))
-    mm = re.search(r"if self\.depth == Self::MAX_AST_DEPTH \{(.*?)\}", beg)
+    mm = re.search(r"if self\.depth == Self::MAX_AST_DEPTH \{", beg)
     if not mm: raise TranslateError("Builder::begin: MAX_AST_DEPTH test not found")
-    maxdepth_pushes_error = "self.errors.push" in mm.group(1)
+    blk_ = beg[mm.end():match_brace(beg, mm.end() - 1)]
+    if "BuilderError::MaxDepthReached" not in blk_:
+        raise TranslateError("Builder::begin: the MAX_AST_DEPTH block does not return MaxDepthReached")
+    # an error must be pushed BEFORE the return
+    maxdepth_pushes_error = "self.errors.push(" in blk_[:blk_.index("BuilderError::MaxDepthReached")]
 
     cmp_ = src(CMP)
     items = norm(fn_body(cmp_, "c_items"))
